@@ -26,7 +26,7 @@ RULE = ("per (base class kind, attribute name): every history up to the depth"
 EXPLANATION = ("direct exploration with fresh classes per execution; "
                "reference = independent resolver + twin hierarchy with the "
                "governing trait declared explicitly + policy clauses")
-BOUNDS = {"quick": "3 base kinds x 15 names, 31 events, three instances (base, late "
+BOUNDS = {"quick": "3 base kinds x 15 names, 34 events, three instances (base, late "
                    "subclass, multiple-inheritance subclass), depth 3 with "
                    "dedup", "thorough": "depth 5"}
 ASSUMPTIONS = ["dunder names are reserved by documented design and kept out "
